@@ -85,7 +85,7 @@ def run(res, tier, seed):
     rng = random.Random(seed)
     proof_ok = proof_stage(res, "Rva.Proofs.C15", THEOREMS)
     build_rva()
-    n = 50 if tier == "quick" else 600
+    n = 50 if tier == "quick" else 3000
     cases = []
     for _ in range(n):
         s, _ = prog.program(rng, sloppy=rng.choice([0, 0.2, 0.4]), multi_ret=False)
